@@ -209,3 +209,11 @@ for g in (RB,AP): shutil.copy('/repo/'+g, M+'/repo/'+g)
 #   owner-consumer-count [PLAY,PLAY,PAUSE];  O3 client Play accepted while playing -> owner-illegal-accepted
 #   [PLAY,PLAY];  O4 client Pause keeps the writer -> owner-consumer-count [RECORD,RECORD,PAUSE];
 #   O5 RECORD/UDP never starts the writer -> owner-consumer-count [RECORD].
+# Capacity-class slips (same procedure): Q1 client createWriter loses `|| c.backChannelSetupped` ->
+#   VIOLATION capacity-wrong, replay {"kind":"capacity","shape":"client-play-std+back","transport":"tcp","queue_size":16}
+#   (8 accepted, 16 expected) and fact Ring.clientRtcpOnlyQueueSize no longer extractable;
+#   Q2 session createWriter returns 8 when playing -> capacity-wrong server-play-std; Q3 multicast writer BufferSize 8 -> capacity-wrong multicast.
+# Error-during-close slips: E1 server_session.go createWriter OnError loses `case <-ctx.Done()` ->
+#   VIOLATION errclose-hang, replay {"kind":"errclose","side":"server-play","transport":"tcp","action":"PAUSE","order":"during"};
+#   E2 the same in client.go -> errclose-hang {"side":"client-play","action":"PAUSE","order":"during"};
+#   both also flip the facts session/clientOnErrorGivesUpOnProcessorCtx.
